@@ -98,6 +98,157 @@ def judge_receive(acc, cls, name, tree, origin, nontrivial, codec):
         judge_send(acc, cls.__name__, name, back, w, codec)
 
 
+# ---------------------------------------------------------------------------------------------
+# optional fields: present / absent, with optionality learnt from the entity's own serialiser
+def pure_deletions(a, b, path=""):
+    """If tree b is tree a with attributes and/or whole children removed and nothing else changed: the removed places
+    (possibly empty list); None otherwise."""
+    ta, aa, ca, da = a
+    tb, ab, cb, db = b
+    if ta != tb or da != db:
+        return None
+    out = []
+    for k, v in ab.items():
+        if k not in aa or aa[k] != v:
+            return None
+    for k in aa:
+        if k not in ab:
+            out.append("%s/%s@%s" % (path, ta, k))
+    i = 0
+    for c in cb:
+        matched = False
+        while i < len(ca):
+            sub = pure_deletions(ca[i], c, path + "/" + ta) if ca[i][0] == c[0] else None
+            i += 1
+            if sub is not None:
+                out.extend(sub)
+                matched = True
+                break
+            out.append("%s/%s/%s" % (path, ta, ca[i - 1][0]))
+        if not matched:
+            return None
+    for j in range(i, len(ca)):
+        out.append("%s/%s/%s" % (path, ta, ca[j][0]))
+    return out
+
+
+FIELD_VALUES = {
+    "participant": lambda r: gen.jid(r), "notify": lambda r: gen.s_from(r, gen.ALNUM + " ", r.randint(1, 12)), "offline": lambda r: True,
+    "retry": lambda r: str(r.randint(1, 5)), "e": lambda r: str(r.randint(0, 3)), "callid": lambda r: gen.msgid(r), "name": lambda r: gen.s_from(r, gen.ALNUM + " ", r.randint(1, 12)),
+    "to": lambda r: gen.jid(r), "t": lambda r: str(r.randint(1, 2 ** 31 - 1)), "subject": lambda r: gen.s_from(r, gen.ALNUM + " ", r.randint(1, 12)),
+    "type": None, "from": lambda r: gen.jid(r),
+}
+
+
+_recv_names = None
+
+
+def receive_side(cls):
+    """True when a layer's code parses stanzas with this class, directly (X.fromProtocolTreeNode( in a layer module) or
+    through the parser of another receive-side class delegating to it."""
+    global _recv_names
+    if _recv_names is None:
+        import os
+        import re
+        import yowsup
+        root = os.path.dirname(yowsup.__file__)
+        uses = {}       # file -> class names whose parser it calls
+        defines = {}    # file -> class names it defines
+        for dp, dn, fn in os.walk(root):
+            for f in fn:
+                if f.endswith(".py") and not f.startswith("test_"):
+                    path = os.path.join(dp, f)
+                    try:
+                        src = open(path, encoding="utf-8", errors="replace").read()
+                    except OSError:
+                        continue
+                    uses[path] = set(m.group(1) for m in re.finditer(r"(\w+)\.fromProtocolTreeNode\(", src))
+                    defines[path] = set(m.group(1) for m in re.finditer(r"^class\s+(\w+)", src, re.M))
+        recv = set()
+        for path, u in uses.items():
+            if "protocolentities" not in path:          # layers, interface, manager... : code that handles incoming data
+                recv |= u
+        changed = True
+        while changed:
+            changed = False
+            for path, u in uses.items():
+                if defines[path] & recv:
+                    new = (u - recv) - defines[path]
+                    # a receive-side class delegating to its own base/sub classes
+                    if new:
+                        recv |= new
+                        changed = True
+        _recv_names = recv
+    return cls.__name__ in _recv_names
+
+
+def optional_probe(acc, cls, name, tree, r, codec):
+    """Stanzas the entity's own serialiser produces with one optional field unset (or one unset field set) must make the
+    same round trip. Optionality is what the serialiser itself shows: dropping the field removes attributes/children and
+    changes nothing else."""
+    import copy
+    if not receive_side(cls):
+        acc.seen("optional_probe_skipped_not_receive_side", cls.__name__)
+        return
+    acc.seen("optional_probe_classes", cls.__name__)
+    try:
+        e0 = cls.fromProtocolTreeNode(treeeq.to_node(tree))
+        n0 = treeeq.to_tuple(e0.toProtocolTreeNode())
+    except Exception:
+        return      # judged by judge_receive
+    for f, v in sorted(vars(e0).items()):
+        variants = []
+        if v is not None and not isinstance(v, (list, dict, tuple)):
+            variants.append(("absent", None))
+        key = f.strip("_").lower()
+        if v is None and FIELD_VALUES.get(key):
+            variants.append(("present", FIELD_VALUES[key](r)))
+        for mode, val in variants:
+            e = copy.copy(e0)
+            try:
+                setattr(e, f, val)
+                n1 = treeeq.to_tuple(e.toProtocolTreeNode())
+            except Exception:
+                acc.count("optional_probe_unserialisable")
+                continue
+            changed = pure_deletions(n0, n1) if mode == "absent" else pure_deletions(n1, n0)
+            if not changed:
+                continue        # the field is not an optional part of the stanza (or not part of it at all)
+            acc.count("optional_variants")
+            acc.count("optional_%s" % mode)
+            acc.seen("optional_places", "%s:%s:%s" % (cls.__name__, mode, ",".join(sorted(set(changed)))[:80]))
+            acc.case(["opt", cls.__name__, f, mode, repr(n1)[:2000]], nontrivial=True)
+            w = {"class": cls.__name__, "shape": name, "origin": "own serialiser, field %s %s" % (f, mode), "places": changed[:4], "stanza": treeeq.describe(n1, limit=8)}
+            try:
+                e2 = cls.fromProtocolTreeNode(treeeq.to_node(n1))
+                n2 = treeeq.to_tuple(e2.toProtocolTreeNode())
+            except Exception as ex:  # noqa
+                acc.violation("%s:optional-%s:%s:raises:%s" % (cls.__name__, mode, f.strip("_"), type(ex).__name__),
+                              "%s cannot take back its own stanza with optional %s %s (%s): %r" % (cls.__name__, f, mode, changed[:3], ex), w)
+                continue
+            ta, pa = split_proto(n1)
+            tb, pb = split_proto(n2)
+            d = treeeq.diff(ta, tb, by_value=True)
+            if d and mode == "absent":
+                # an absent attribute read back as its default and written out explicitly (offline="0") loses and alters
+                # nothing, provided nothing else moved and the result is stable
+                back = pure_deletions(tb, ta)
+                if back is not None and set(back) <= set(changed):
+                    try:
+                        n3 = treeeq.to_tuple(cls.fromProtocolTreeNode(treeeq.to_node(n2)).toProtocolTreeNode())
+                        if not treeeq.diff(tb, split_proto(n3)[0], by_value=True):
+                            acc.count("optional_absent_written_as_default")
+                            acc.seen("defaults_written", "%s:%s" % (cls.__name__, ",".join(sorted(set(back)))[:60]))
+                            continue
+                    except Exception:
+                        pass
+            if d:
+                acc.violation("%s:optional-%s:%s:%s" % (cls.__name__, mode, f.strip("_"), diffkey(d)),
+                              "stanza with optional %s %s -> %s -> stanza changes it: %s" % (f, mode, cls.__name__, d), w)
+                continue
+            acc.count("optional_ok")
+
+
 def diffkey(d):
     """Mechanism part of a treeeq diff: location without values."""
     loc = d.split(": ")[0]
@@ -281,6 +432,8 @@ def run(spec, acc):
             acc.count("lists_varied", stats.get("lists", 0))
             acc.case(["fx", name, repr(t2)[:3000]], nontrivial=stats.get("values", 0) > 0)
             judge_receive(acc, cls, name, t2, "fixture-mutated", True, codec)
+            if k < spec.get("opt", 3):
+                optional_probe(acc, cls, name, t2, r, codec)
         if i < nsh * 2:
             acc.sample({"class": cls.__name__, "fixture": name, "stanza": treeeq.describe(tree, 4)})
     for i, name in enumerate(sorted(catalogue.HAND)):
@@ -298,6 +451,8 @@ def run(spec, acc):
             tree = catalogue.HAND[name][2](r)
             acc.case(["hand", name, repr(tree)[:3000]], nontrivial=True)
             judge_receive(acc, cls, name, tree, "hand-shape", True, codec)
+            if k < spec.get("opt", 3):
+                optional_probe(acc, cls, name, tree, r, codec)
     cat = outgoing_catalogue()
     for i, name in enumerate(sorted(cat)):
         if i % nsh != sh:
